@@ -31,6 +31,10 @@ func schedScenarios(prop, tier string) []*Scenario {
 		return c13Scenarios(tier)
 	case "C14":
 		return c14Scenarios(tier)
+	case "C19":
+		return c19Scenarios(tier)
+	case "C17":
+		return c17Scenarios(tier)
 	}
 	return nil
 }
